@@ -28,7 +28,8 @@
 (***************************************************************************)
 EXTENDS OptRule, GoSlice
 
-CONSTANTS Tree,        \* "std" | "deep" | "par" (three leaves running in parallel in one super step)
+CONSTANTS Tree,        \* "std" | "deep" | "par" (three leaves running in parallel in one super step) | "twosub" (two nested graphs whose
+                       \* inner node has the SAME key)
           PU,          \* path universe: 0 tiny | 1 small | 2 full
           MaxStmts,    \* program length
           MaxNew,      \* number of "new" statements
@@ -47,6 +48,7 @@ CONSTANTS Tree,        \* "std" | "deep" | "par" (three leaves running in parall
           Modes,       \* call paradigms of a case, subset of {"invoke", "stream"}
           AllowKeyed,  \* TRUE: one node (leaf or nested graph, not the first of its graph) may be added with WithInputKey (its predecessor with
                        \* the matching WithOutputKey)
+          DedupIgnoresHead, \* seeded variant of samePathBefore (the D28 repair): paths compared from index 1, the nested graph's key ignored
           FirstOnly,   \* seeded variant of extractOption: a designated component option reaches its node with opt.options[0] only
           KeyedStreamDrops, \* seeded variant of inputKeyedComposableRunnable: the stream-path wrapper calls the inner transform without opts
           AllowIntr,   \* TRUE: the case is "interrupted run + resuming call": the graph is compiled with a checkpoint store and ONE interrupt mark
@@ -64,7 +66,10 @@ CONSTANTS Tree,        \* "std" | "deep" | "par" (three leaves running in parall
 UU(id, path, graph, parent, ot) == [u |-> id, path |-> path, graph |-> graph, parent |-> parent, ot |-> ot,
                                     gk |-> IF ~graph THEN "" ELSE IF parent = "" THEN "graph" ELSE SubKind]
 UnitSeq ==
-  IF Tree = "par"
+  IF Tree = "twosub"
+  THEN << UU("top", <<>>, TRUE, "", ""), UU("a", <<"a">>, FALSE, "top", "T1"), UU("sa", <<"sa">>, TRUE, "top", ""),
+          UU("xa", <<"sa", "x">>, FALSE, "sa", "T1"), UU("sb", <<"sb">>, TRUE, "top", ""), UU("xb", <<"sb", "x">>, FALSE, "sb", "T2") >>
+  ELSE IF Tree = "par"
   THEN << UU("top", <<>>, TRUE, "", ""), UU("p1", <<"p1">>, FALSE, "top", "T1"), UU("p2", <<"p2">>, FALSE, "top", "T2"),
           UU("p3", <<"p3">>, FALSE, "top", "T1") >>
   ELSE IF Tree = "std"
@@ -79,6 +84,7 @@ Kids(g) == SelectSeq(UnitSeq, LAMBDA u : u.parent = g)          \* in chain orde
 KeyOf(u) == u.path[Len(u.path)]
 PathU ==
   IF PU = 3 THEN {u.path : u \in {x \in UnitSet : x.parent # ""}}            \* every node and nested graph, nothing invalid
+  ELSE IF Tree = "twosub" THEN {<<"a">>, <<"sa">>, <<"sa", "x">>, <<"sb", "x">>}
   ELSE IF Tree = "par" THEN (IF PU <= 1 THEN {<<"p1">>, <<"p2">>} ELSE {<<"p1">>, <<"p2">>, <<"p3">>, <<"zz">>})
   ELSE IF Tree = "std"
   THEN (IF PU = 0 THEN {<<"a">>, <<"sub", "s1">>, <<"zz">>}
@@ -157,6 +163,11 @@ ExPaths(g, o, ps, acc) ==
         \* optMap[key] = append(optMap[key], opt.options...)     (FirstOnly: opt.options[0])
         ELSE ExPaths(g, o, Tail(ps), [acc EXCEPT !.m = AddAll(@, cur.u, IF FirstOnly THEN <<o.id>> ELSE Bundle(o))])
       ELSE IF ~cur.graph THEN [acc EXCEPT !.err = TRUE]                                       \* sub path of a component
+      \* D28 repair: a callbacks-only option does not forward a nested path an earlier entry of the same list already named
+      \* (samePathBefore compares whole paths; DedupIgnoresHead: from index 1 on)
+      ELSE IF o.typ = "cb" /\ \E k \in 1..(Len(o.paths) - Len(ps)) :
+                                 Len(o.paths[k]) = Len(p) /\ (IF DedupIgnoresHead THEN Tail(o.paths[k]) = Tail(p) ELSE o.paths[k] = p)
+           THEN ExPaths(g, o, Tail(ps), acc)
       ELSE ExPaths(g, o, Tail(ps), [acc EXCEPT !.m = Add(@, cur.u, [o EXCEPT !.paths = <<Tail(p)>>])])
 \* the undesignated branch: by type, whole option to sub-graphs
 RECURSIVE ExCommon(_, _, _, _)
